@@ -306,6 +306,13 @@ var rootCauses = []struct {
 		if a == "lang.(*Process).Dump" || b == "lang.(*Process).Dump" {
 			return true
 		}
+		// fid-list reads the parameter tokens of running processes directly
+		// (processes.getParams -> Parameters.Raw) while executeProcess
+		// prepends to them
+		const prepend, raw = "lang/parameters.(*Parameters).Prepend", "lang/parameters.(*Parameters).Raw"
+		if (a == prepend && b == raw) || (a == raw && b == prepend) {
+			return true
+		}
 		return (proc(a) && dump(b)) || (proc(b) && dump(a))
 	}},
 }
@@ -326,6 +333,8 @@ func findingID(sig string) string {
 	return fmt.Sprintf("C32-race-%x", h[:5])
 }
 
+func replaying() bool { return os.Getenv("VERIF_REPLAY") != "" }
+
 func waitDrained() bool {
 	deadline := time.Now().Add(20 * time.Second)
 	for time.Now().Before(deadline) {
@@ -337,17 +346,60 @@ func waitDrained() bool {
 	return false
 }
 
+// leftover: a program that did not finish or did not drain leaves goroutines
+// behind (a reader of a named pipe nobody closes polls GetDataType in a busy
+// loop). Termination is not this property's subject, but such leftovers slow
+// down every later case of the process until the shard times out: they are
+// cleaned up (pipes force-closed, processes killed) and, if that does not
+// help, the remaining cases of this process are not run (counted).
+var leftover bool
+
+func cleanup() bool {
+	for name := range lang.GlobalPipes.Dump() {
+		if name == "null" {
+			continue
+		}
+		if p, err := lang.GlobalPipes.Get(name); err == nil && p != nil {
+			p.ForceClose()
+		}
+		lang.GlobalPipes.Delete(name)
+	}
+	for _, p := range lang.GlobalFIDs.ListAll() {
+		if p != nil && p.Kill != nil {
+			p.Kill()
+		}
+	}
+	deadline := time.Now().Add(5 * time.Second)
+	for time.Now().Before(deadline) {
+		if len(lang.GlobalFIDs.ListAll()) == 0 {
+			return true
+		}
+		time.Sleep(time.Millisecond)
+	}
+	return false
+}
+
 func check(c Case) *core.Violation {
+	if leftover && !replaying() {
+		core.Count("not_run_after_undrained_program", 1)
+		return nil
+	}
 	newRaceText() // discard anything from before the case
 	verifhook.SetSeed(c.Perturb)
 	r := core.Run(c.Source())
 	verifhook.SetSeed(0)
 	if r.Hung {
 		core.Count("hung_programs", 1)
+		if !cleanup() {
+			leftover = true
+		}
 		return nil // termination of concurrent programs is not this property's subject
 	}
 	if !waitDrained() {
 		core.Count("not_drained", 1)
+		if !cleanup() {
+			leftover = true
+		}
 	}
 	text := newRaceText()
 	if text == "" {
